@@ -34,10 +34,11 @@ const (
 	t2B
 	t2Unknown
 	t2Bad // type 2, key A, blinded message >= modulus
+	t1C   // type 1, issuer key C: its truncated key id EQUALS that of the type-2 key A (legal: the types differ)
 	nLetters
 )
 
-var letterName = []string{"t1/keyA", "t1/keyB", "t1/unknown-key-id", "t1/malformed-element", "t2/keyA", "t2/keyB", "t2/unknown-key-id", "t2/malformed-element"}
+var letterName = []string{"t1/keyA", "t1/keyB", "t1/unknown-key-id", "t1/malformed-element", "t2/keyA", "t2/keyB", "t2/unknown-key-id", "t2/malformed-element", "t1/keyC(same truncated id as t2/keyA)"}
 
 // issuer configurations: which issuers are handed to NewBasicBatchedIssuer, in order
 var configs = [][]string{
@@ -48,6 +49,9 @@ var configs = [][]string{
 	{"1A", "1B", "2A", "2B"}, // two issuers per type
 	{"1B", "1A", "2B", "2A"}, // the same in the other order
 	{"2A", "1A"},
+	{"1C", "2A"}, // a type-1 and a type-2 issuer whose truncated key ids coincide
+	{"2A", "1C", "1A"},
+	{"1C"},
 }
 
 type Case struct {
@@ -56,9 +60,11 @@ type Case struct {
 }
 
 type worldT struct {
-	w1 [2]*px.W1
+	w1 [3]*px.W1 // A, B, C (C collides with the type-2 key A on the truncated id)
 	w2 [2]*px.W2
 }
+
+var keyCIndex = -1 // index into the OPRF key alphabet, found once
 
 var seedv int64
 
@@ -67,6 +73,19 @@ func buildWorld() *worldT {
 	// choose OPRF keys whose truncated ids differ from each other and from the "unknown" id
 	w.w1[0], w.w1[1] = px.NewW1(0), px.NewW1(1)
 	w.w2[0], w.w2[1] = px.NewW2(0), px.NewW2(1)
+	if keyCIndex < 0 {
+		for i := 6; i < 6+4096; i++ {
+			c := px.NewW1(i)
+			if last(c.KeyID) == last(w.w2[0].KeyID) && last(c.KeyID) != last(w.w1[0].KeyID) && last(c.KeyID) != last(w.w1[1].KeyID) {
+				keyCIndex = i
+				break
+			}
+		}
+		if keyCIndex < 0 {
+			panic("no type-1 key with the wanted truncated id found")
+		}
+	}
+	w.w1[2] = px.NewW1(keyCIndex)
 	return w
 }
 
@@ -80,7 +99,7 @@ func (w *worldT) unknownID(typ int) byte {
 	if typ == 2 {
 		first = w.w2[0].KeyID[0]
 	}
-	if typ == 1 && first != last(w.w1[0].KeyID) && first != last(w.w1[1].KeyID) {
+	if typ == 1 && first != last(w.w1[0].KeyID) && first != last(w.w1[1].KeyID) && first != last(w.w1[2].KeyID) {
 		return first
 	}
 	if typ == 2 && first != last(w.w2[0].KeyID) && first != last(w.w2[1].KeyID) {
@@ -88,7 +107,7 @@ func (w *worldT) unknownID(typ int) byte {
 	}
 	for c := 0; c < 256; c++ {
 		b := byte(c*37 + 11)
-		if typ == 1 && b != last(w.w1[0].KeyID) && b != last(w.w1[1].KeyID) {
+		if typ == 1 && b != last(w.w1[0].KeyID) && b != last(w.w1[1].KeyID) && b != last(w.w1[2].KeyID) {
 			return b
 		}
 		if typ == 2 && b != last(w.w2[0].KeyID) && b != last(w.w2[1].KeyID) {
@@ -113,9 +132,12 @@ func (w *worldT) makeSlot(letter, pos int, lbl string) slot {
 	s.nonce = mc.Fill(seedv, fmt.Sprintf("nonce-%s-%d", lbl, pos), 32)
 	s.chal = mc.Fill(seedv, fmt.Sprintf("chal-%s-%d", lbl, pos), 16+pos)
 	switch letter {
-	case t1A, t1B, t1Unknown, t1Bad:
+	case t1A, t1B, t1Unknown, t1Bad, t1C:
 		if letter == t1B {
 			s.key = 1
+		}
+		if letter == t1C {
+			s.key = 2
 		}
 		st, err := w.w1[s.key].Create(s.chal, s.nonce, nil)
 		if err != nil {
@@ -168,6 +190,8 @@ func expectPresent(cfg []string, letter int) bool {
 		return has(cfg, "1A")
 	case t1B:
 		return has(cfg, "1B")
+	case t1C:
+		return has(cfg, "1C")
 	case t2A:
 		return has(cfg, "2A")
 	case t2B:
@@ -188,6 +212,8 @@ func run(c Case) (string, *mc.Viol) {
 			issuers = append(issuers, bx.Issuer1{I: w.w1[0].Issuer})
 		case "1B":
 			issuers = append(issuers, bx.Issuer1{I: w.w1[1].Issuer})
+		case "1C":
+			issuers = append(issuers, bx.Issuer1{I: w.w1[2].Issuer})
 		case "2A":
 			issuers = append(issuers, bx.Issuer2{I: w.w2[0].Issuer})
 		case "2B":
@@ -320,7 +346,7 @@ func main() {
 	if last(w.w1[0].KeyID) == last(w.w1[1].KeyID) || last(w.w2[0].KeyID) == last(w.w2[1].KeyID) {
 		r.Note("key alphabet has colliding truncated ids; configurations with two issuers per type are skipped")
 		r.NotExhaustive("colliding truncated key ids in the key alphabet")
-		configs = [][]string{configs[0], configs[1], configs[2], configs[3], configs[6]}
+		configs = [][]string{configs[0], configs[1], configs[2], configs[3], configs[6], configs[7], configs[9]}
 	}
 	n := mc.Pick(r, 3, 4)
 	var cases []Case
@@ -339,7 +365,7 @@ func main() {
 		}
 	}
 	build(nil)
-	r.SetRule(fmt.Sprintf("every sequence of length 1..%d over the 8-letter request alphabet {type1,type2} x {key A, key B, unknown truncated key id, malformed blinded element} x every one of %d issuer configurations (both types, one type, none, two issuers per type in both orders); unsupported type = configuration lacking that type. Cases are distinct tuples; non-trivial = batch with at least one request", n, len(configs)))
+	r.SetRule(fmt.Sprintf("every sequence of length 1..%d over the 9-letter request alphabet {type1,type2} x {key A, key B, unknown truncated key id, malformed blinded element} plus a type-1 key C whose truncated id equals that of the type-2 key A x every one of %d issuer configurations (both types, one type, none, two issuers per type in both orders); unsupported type = configuration lacking that type. Cases are distinct tuples; non-trivial = batch with at least one request", n, len(configs)))
 	r.Assume("issuer configurations in which two issuers of one type share a truncated key id are excluded (the protocol cannot tell which key the client meant)",
 		"reference model: entry present iff a configured issuer of the request's type and truncated key id exists and the blinded element is well-formed",
 		"issuers are adapted to the batch Issuer interface exactly as the repository's tests do")
